@@ -228,9 +228,9 @@ def all_kinds_cycle(rng, N):
 
 class Prop:
     ID = "C08"
-    LEVEL = "exploration"
-    COQ_HEADER = ""
-    CHECK_FN = ""
+    LEVEL = "proof"
+    COQ_HEADER = "From TN Require Import Harness.H_C08.\nFrom Coq Require Import QArith.\nOpen Scope Q_scope.\n"
+    CHECK_FN = "check"
     RULE = ("seeded runs (torch.manual_seed / np.random.seed = case seed) of tn.cross on grids with 2..5 modes of sizes 1..5: "
             "(a) 12 named functions on explicit domains (regular, irregular, negative, size-1 axes), vector and matrix calling "
             "convention, 1-D and column outputs, fixed ranks (int, list, below / at / above the target's TT ranks) and adaptive "
@@ -241,7 +241,16 @@ class Prop:
             "is TT-representable (rank-1 / additive structure on larger grids, arbitrary values on tiny grids); (d) "
             "minimum/argmin/maximum/argmax (public wrappers, re-seeded so that value and position come from the same "
             "trajectory, and cross(_minimize=True)) on tensors and domains, incl. tensors whose minimum is 0; (e) cross_forward "
-            "on the index sets of a finished run. Several seeds per configuration. A case is non-trivial when the run "
+            "on the index sets of a finished run; (f) 370 (quick) small runs (N 2..4, mode sizes 2..4, ranks <= 3, <= 3 "
+            "iterations, validation sample 4..8, integer / dyadic axis values or small-integer tensors in every format, "
+            "fixed and adaptive ranks, vector and matrix convention, cross and cross(_minimize=True) behind "
+            "minimum/argmin) that are additionally replayed in the Coq model Model/Cross.v with the oracles "
+            "(function table, maxvol rows, QR factor Q of the last right-to-left sweep, np.random.randint / choice "
+            "answers, number of iterations, position of every new best sample) recorded from the run: argument vectors "
+            "of every function call, lsets / rsets / Rs and argmin compared exactly, the returned tensor and min within "
+            "1e-5 of the largest entry. Outside the model's scope (not replayed): larger runs, non-dyadic axes, "
+            "cross_forward, the operators, maximum/argmax (same code with -f). "
+            "Several seeds per configuration. A case is non-trivial when the run "
             "returned and the target is not constant; distinct = distinct (kind, function/op, formats, shape, rank "
             "configuration, calling convention, seed).")
     TRUSTED = ["checks are evaluated by harness/props/c08.py with NumPy float64: grid membership 1e-9, interpolation 1e-7, recovery "
@@ -249,7 +258,14 @@ class Prop:
                "the exact TT ranks of a target are the numerical ranks (1e-12) of the unfoldings of the dense target",
                "the evaluation points are observed by wrapping the black-box function (and, for domains, through "
                "record_samples)",
-               "dense reference of erfinv is torch.erfinv on the dense operand"]
+               "dense reference of erfinv is torch.erfinv on the dense operand",
+               "oracle replay (coq_term): maxvol / rect_maxvol, torch.linalg.qr (observed as maxvol's argument; its contract "
+               "Q^T Q = I, span(Q) = span(unfolding) is validated numerically at 1e-9 / 1e-8 on every replayed call), "
+               "np.random.randint / np.random.choice, np.unravel_index on 3 axes (signals a replaced best sample), the "
+               "stopping rule (number of iterations) and the black-box function are intercepted by monkeypatching "
+               "during a second, identically seeded run whose result must coincide with the checked run",
+               "Q entries, function table and dense result are rounded to 2^-40 before they enter Coq (compared within a "
+               "tolerance); argument vectors are passed exactly"]
     ASSUMPTIONS = ["recovery is required only when the exact TT ranks of the dense target are <= the ranks cross may reach on that "
                    "case (fixed: request capped by the grid's full ranks; adaptive: min(rmax, 1+(max_iter-1) kickrank) capped) and, "
                    "for adaptive ranks, the unfolding spectra have no singular values in (1e-12, 1e-4) relative (otherwise the "
@@ -262,7 +278,10 @@ class Prop:
                    "for-every-seed is sampled: a finite number of seeds per configuration, offset by VERIF_SEED",
                    "entries-only is observed on values: every tuple of arguments passed to the function equals the tuple of "
                    "entries of the given tensors at some common position"]
-    THEOREMS = []
+    THEOREMS = ["C08_core_identity_pattern", "C08_skeleton_unit", "C08_interpolation", "C08_rinterface_consistent",
+                "C08_linterface_consistent", "C08_argument_is_entry", "C08_point_in_grid",
+                "C08_lsets_nested", "C08_rsets_nested", "C08_lsets_in_grid", "C08_rsets_in_grid", "C08_run_in_grid",
+                "C08_argmin_evaluated", "C08_attained_ge_min", "C08_min_estimate_is_sample"]
 
     # ------------------------------------------------------------------ generation
     def generate(self, rng, tier):
@@ -479,6 +498,58 @@ class Prop:
             c["tags"] = {"kind": "forward", "func": fname, "N": N, "shape": "x".join(map(str, shape)), "K": K,
                          "formats": "|".join(tsig(t) for t in ts)}
             cases.append(c)
+        # ---- (f) small runs replayed in the Coq model (oracle replay: see coq_term)
+        def small_cross():
+            cp = {"val_size": rng.choice([4, 6, 8])}
+            mode = rng.choice(["fixed_int", "fixed_list", "adaptive", "adaptive"])
+            return cp, mode
+
+        def replay_case(kind):
+            N = rng.choice([2, 3, 3, 4]); shape = [rng.randint(2, 4 if N < 4 else 3) for _ in range(N)]
+            cp, mode = small_cross()
+            if mode == "fixed_int":
+                cp["ranks_tt"] = rng.choice([1, 2, 3]); cp["max_iter"] = rng.choice([1, 2, 3])
+            elif mode == "fixed_list":
+                cp["ranks_tt"] = [rng.choice([1, 2, 3]) for _ in range(N - 1)]; cp["max_iter"] = rng.choice([1, 2])
+            else:
+                cp["kickrank"] = rng.choice([1, 2]); cp["rmax"] = rng.choice([2, 3]); cp["max_iter"] = rng.choice([2, 3])
+            if kind == "domain":
+                axes = [[float(v) for v in rng.choice([range(0, s), range(-1, s - 1), [0.5 * k for k in range(s)],
+                                                        [2.0 * k - 1 for k in range(s)]])] for s in shape]
+                fname = rng.choice(["wsum", "prod", "sumsq", "x0x1_rest", "pairs", "inv", "maxabs", "sin_sum", "const", "last_only"])
+                c = {"kind": "domain", "seed": seed(), "domain": axes, "func": fname, "cross": cp,
+                     "function_arg": rng.choice(["vectors", "matrix"]), "out2d": False, "record_samples": rng.random() < 0.5}
+                c["tags"] = {"kind": "domain", "func": fname, "N": N, "shape": "x".join(map(str, shape)), "ranks": mode,
+                             "function_arg": c["function_arg"], "out2d": False, "size1": False, "replay": True}
+            elif kind == "tensors":
+                fname = rng.choice(["id", "sq", "affine", "cube", "abs", "add", "mul", "lin", "fma", "sum3"])
+                K = TENSOR_FUNCS[fname][0]
+                ts = [rand_tensor_json(rng, shape, all_kinds_cycle(rng, N), maxr=rng.choice([1, 2, 2, 3]), maxs=3) for _ in range(K)]
+                c = {"kind": "tensors", "seed": seed(), "tensors": ts, "den": [1] * K, "func": fname, "cross": cp,
+                     "function_arg": rng.choice(["vectors", "matrix"]), "out2d": False, "single": bool(K == 1 and rng.random() < 0.3)}
+                c["tags"] = {"kind": "tensors", "func": fname, "N": N, "shape": "x".join(map(str, shape)), "ranks": mode,
+                             "formats": "|".join(tsig(t) for t in ts), "function_arg": c["function_arg"], "K": K,
+                             "single": c["single"], "size1": False, "replay": True}
+            else:
+                cp = {"val_size": cp["val_size"], "rmax": rng.choice([1, 2, 3]), "max_iter": rng.choice([1, 2, 3])}
+                fname = rng.choice(["id", "sq", "affine", "abs", "add", "mul"])
+                K = TENSOR_FUNCS[fname][0]
+                zero_min = rng.random() < 0.3
+                lo, hi = (0, 2) if zero_min else (-2, 2)
+                ts = [rand_tensor_json(rng, shape, all_kinds_cycle(rng, N), maxr=rng.choice([1, 2, 3]), lo=lo, hi=hi) for _ in range(K)]
+                c = {"kind": "minmax", "seed": seed(), "api": rng.choice(["wrappers", "direct"]), "src": "tensors", "cross": cp,
+                     "tensors": ts, "den": [1] * K, "func": fname, "function_arg": "vectors"}
+                c["tags"] = {"kind": "minmax", "api": c["api"], "src": "tensors", "func": fname, "N": N,
+                             "shape": "x".join(map(str, shape)), "formats": "|".join(tsig(t) for t in ts),
+                             "zero_min": zero_min, "replay": True}
+            cases.append(c)
+
+        for _ in range(140 if quick else 700):
+            replay_case("domain")
+        for _ in range(140 if quick else 700):
+            replay_case("tensors")
+        for _ in range(90 if quick else 400):
+            replay_case("minmax")
         return cases
 
     # ------------------------------------------------------------------ implementation
@@ -757,8 +828,179 @@ class Prop:
                                            json.dumps(case.get("cross"), sort_keys=True), case.get("function_arg"),
                                            t.get("api", t.get("style")), case["seed"])
 
+    # ------------------------------------------------------------------ correspondence with the Coq model
+    def _replay_run(self, case):
+        """the same call as run(), with the oracles intercepted: np.random.randint / choice, maxvol / rect_maxvol
+        (argument = the QR factor Q, answer = rows), np.unravel_index on 3 axes (only reached when _minimize replaces
+        its best sample), and the black-box function (arguments and values of every call)"""
+        import tntorch.maxvol as mv
+        kind = case["kind"]; minimize = kind == "minmax"
+        rec = {"randint": [], "choice": [], "maxvol": [], "unravel3": [], "calls": [], "inside": False}
+        o_randint, o_choice, o_unravel = np.random.randint, np.random.choice, np.unravel_index
+        o_mv, o_rmv = mv.py_maxvol, mv.py_rect_maxvol
+
+        def w_randint(*a, **k):
+            r = o_randint(*a, **k); rec["randint"].append(np.array(r).copy()); return r
+
+        def w_choice(*a, **k):
+            r = o_choice(*a, **k); rec["choice"].append(np.array(r).copy()); return r
+
+        def w_unravel(idx, shape, *a, **k):
+            if len(shape) == 3:
+                rec["unravel3"].append((len(rec["calls"]) - 1, int(idx)))
+            return o_unravel(idx, shape, *a, **k)
+
+        def w_mv(A, *a, **k):
+            r = o_mv(A, *a, **k)
+            if not rec["inside"]:
+                rec["maxvol"].append((np.array(A, dtype=np.float64).copy(), [int(v) for v in r[0]]))
+            return r
+
+        def w_rmv(A, *a, **k):
+            rec["inside"] = True
+            try:
+                r = o_rmv(A, *a, **k)
+            finally:
+                rec["inside"] = False
+            rec["maxvol"].append((np.array(A, dtype=np.float64).copy(), [int(v) for v in r[0]]))
+            return r
+        matrix = case.get("function_arg") == "matrix"
+        base = DOMAIN_FUNCS[case["func"]] if kind == "domain" else TENSOR_FUNCS[case["func"]][1]
+
+        def f(*args):
+            xs = [args[0][:, k] for k in range(args[0].shape[1])] if matrix else [a.reshape(-1) for a in args]
+            y = base(torch, xs)
+            rec["calls"].append(([x.detach().numpy().astype(np.float64).copy() for x in xs],
+                                 y.detach().numpy().astype(np.float64).reshape(-1).copy()))
+            return y
+        if kind == "domain":
+            kw = {"domain": [torch.tensor(a, dtype=torch.float64) for a in case["domain"]]}
+            if case.get("record_samples"):
+                kw["record_samples"] = True
+        else:
+            ts = self._operands(case)
+            kw = {"tensors": ts[0] if case.get("single") else ts}
+        kw.update(case["cross"])
+        if minimize:
+            kw.setdefault("rmax", 10); kw.setdefault("max_iter", 10)
+        np.random.randint, np.random.choice, np.unravel_index = w_randint, w_choice, w_unravel
+        mv.py_maxvol, mv.py_rect_maxvol = w_mv, w_rmv
+        try:
+            with quiet():
+                seed_all(case["seed"])
+                t, info = tn.cross(function=f, function_arg=case.get("function_arg", "vectors"), verbose=False,
+                                   return_info=True, _minimize=minimize, **kw)
+        finally:
+            np.random.randint, np.random.choice, np.unravel_index = o_randint, o_choice, o_unravel
+            mv.py_maxvol, mv.py_rect_maxvol = o_mv, o_rmv
+        return t, info, rec
+
     def coq_term(self, case, res):
-        return None
+        """oracle replay of small runs (cases tagged replay: N 2..4, mode sizes 2..4, ranks <= 3, <= 3 iterations,
+        small validation sample, dyadic axis values / small-integer tensors so that every argument vector is exact)"""
+        if not case.get("tags", {}).get("replay") or not res.get("ok"):
+            return None
+        kind = case["kind"]; minimize = kind == "minmax"
+        try:
+            t, info, rec = self._replay_run(case)
+        except Exception:
+            return None
+        dense = t.torch().detach().double().reshape(-1).numpy()
+        if minimize:
+            if float(info["min"]) != res["min"] or [int(v) for v in info["argmin"]] != res["argmin"]:
+                return None          # not the trajectory that was checked
+        elif dense.tolist() != res["dense"]:
+            return None
+        # ---- the tensors and the function table
+        if kind == "domain":
+            axes = case["domain"]; N = len(axes)
+            tjs = [{"modes": [{"kind": "tt", "core": [[[float(v)] for v in (axes[m] if m == n else [1.0] * len(axes[m]))]],
+                               "U": None} for m in range(N)]} for n in range(N)]
+            cols = [g.reshape(-1) for g in np.meshgrid(*[np.array(a, dtype=np.float64) for a in axes], indexing="ij")]
+        else:
+            tjs = case["tensors"]
+            cols = [dense_operand(tj, d).reshape(-1) for tj, d in zip(case["tensors"], case["den"])]
+            N = len(tjs[0]["modes"])
+        Is = [int(v) for v in t.shape]
+        base = DOMAIN_FUNCS[case["func"]] if kind == "domain" else TENSOR_FUNCS[case["func"]][1]
+        ftab = np.asarray(base(torch, [torch.tensor(c, dtype=torch.float64) for c in cols]).detach().numpy(), dtype=np.float64)
+        if ftab.shape != (int(np.prod(Is)),) or not np.all(np.isfinite(ftab)):
+            return None
+        # ---- ranks
+        cp = case["cross"]
+        ranks = cp.get("ranks_tt")
+        if ranks is None:
+            kick = "(Some %d%%nat)" % cp.get("kickrank", 3); ranks = [1] * (N - 1)
+        else:
+            kick = "None"; ranks = list(ranks) if isinstance(ranks, list) else [ranks] * (N - 1)
+        rmax = min(int(cp.get("rmax", 10 if minimize else 100)), 60)
+        n_iter = len(info["val_epss"]); spi = 2 * N - 1
+        calls = rec["calls"]
+        FAIL = "mkCase [] [] [] [] None 0%nat [] [] [] [] false [] [] [] [] [] 0"     # forces a disagreement
+        nk = (n_iter - 1) if kick != "None" else 0
+        if len(calls) != 1 + n_iter * spi or len(rec["maxvol"]) != n_iter * (2 * N - 2) or len(rec["choice"]) != N or \
+                len(rec["randint"]) != (N - 1) * (1 + nk):
+            return FAIL              # the sequence of oracle calls is not the one of the modelled control flow
+        from fractions import Fraction
+        D = 2 ** 40
+
+        def qx(x):            # exact
+            fr = Fraction(float(x)); return "(%d#%d)" % (fr.numerator, fr.denominator)
+
+        def qr(x):            # rounded to 2^-40 (values compared within a tolerance)
+            fr = Fraction(round(float(x) * D), D); return "(%d#%d)" % (fr.numerator, fr.denominator)
+
+        def rows(M):
+            return "[" + ";".join(coq_natlist(r) for r in M) + "]"
+
+        def qrows(M, lit):
+            return "[" + ";".join(coq_list(list(r), lit, "Q") for r in M) + "]"
+
+        def randrows(blocks):   # N-1 column blocks + the zero column
+            cols_ = [np.array(b).reshape(-1) for b in blocks]
+            n = len(cols_[0])
+            return rows([[int(c[i]) for c in cols_] + [0] for i in range(n)])
+        upd = {}
+        for ci, k in rec["unravel3"]:
+            upd[ci] = k
+        iters = []
+        for it in range(n_iter):
+            steps = []
+            for sidx in range(spi):
+                ci = 1 + it * spi + sidx
+                xs, vals = calls[ci]
+                if sidx < 2 * N - 2:
+                    A, local = rec["maxvol"][it * (2 * N - 2) + sidx]
+                else:
+                    A, local = None, []
+                Qs = "[]"
+                if A is not None and sidx >= N - 1 and it == n_iter - 1 and not minimize:
+                    # QR contract, validated numerically: orthonormal columns spanning the columns of the unfolding
+                    if A.shape[0] < A.shape[1] or vals.size % A.shape[1] != 0:
+                        return None
+                    V = vals.reshape(A.shape[1], -1)
+                    sc = max(1.0, float(np.abs(V).max()))
+                    if float(np.abs(A.T @ A - np.eye(A.shape[1])).max()) > 1e-9 or \
+                            float(np.abs(V.T - A @ (A.T @ V.T)).max()) > 1e-8 * sc:
+                        return FAIL     # contract violated
+                    Qs = qrows(A, qr)
+                u = "(Some %d%%nat)" % upd[ci] if ci in upd else "None"
+                steps.append("mkStep %s %s %s %s" % (qrows(xs, qx), u, coq_natlist(local), Qs))
+            extra = "[]" if it == 0 or nk == 0 else randrows(rec["randint"][(N - 1) * it:(N - 1) * (it + 1)])
+            iters.append("mkIter %s [%s]" % (extra, ";".join(steps)))
+        valpos = rows([[int(rec["choice"][n][i]) for n in range(N)] for i in range(len(rec["choice"][0]))])
+        lit = lambda x: qlit(Fraction(x))
+        lsets = "[" + ";".join(rows(np.asarray(a).astype(int).tolist()) for a in info["lsets"]) + "]"
+        rsets = "[" + ";".join(rows(np.asarray(a).astype(int).tolist()) for a in info["rsets"]) + "]"
+        if minimize:
+            am = coq_natlist([int(v) for v in info["argmin"]]); mn = qr(float(info["min"])); dn = "[]"
+        else:
+            am = "[]"; mn = "0"; dn = coq_list(dense.tolist(), qr, "Q")
+        return "mkCase [%s] %s %s %s %s %d%%nat %s %s %s [%s] %s %s %s %s %s %s %s" % (
+            ";".join(coq_tensor(tj, lit, "Q") for tj in tjs), coq_natlist(Is), coq_list(ftab.tolist(), qr, "Q"),
+            coq_natlist([1] + [int(r) for r in ranks] + [1]), kick, rmax, randrows(rec["randint"][:N - 1]), valpos,
+            qrows(calls[0][0], qx), ";".join(iters), "true" if minimize else "false", lsets, rsets,
+            coq_natlist([int(r) for r in info["Rs"]]), dn, am, mn)
 
 
 def _maxdiff(a, b):
